@@ -24,5 +24,16 @@ FAMILIES = {
 }
 
 PROPS = {
-    "C01": {"props_file": "Props/C01.v", "families": ["hist"], "design_ref": "§8 C01"},
+    "C01": {"props_file": "Props/C01.v", "families": ["hist"], "design_ref": "DESIGN.md §8 C01",
+            "level_text": "Theorem c01_history_refines: for every element type, configuration and EVERY finite history of the 24 list operations (unbounded length, by induction) the raw-slot model of stack.go (whose guards are regenerated from /repo by the translator) never panics, stays well-formed and returns/ends exactly like the ordered-list specification. The model is tied to the code by the hist family (exhaustive short + random long histories, full re-observation after every mutator) evaluated in Coq against model and specification.",
+            "technique": "Coq refinement proof (induction over histories) over a partly regenerated model + differential correspondence check"},
+    "C03": {"props_file": "Props/C03.v", "families": ["hist"], "design_ref": "DESIGN.md §8 C03",
+            "level_text": "Theorems c03_*: every state reachable from a constructor with capacity k by any history holds <= k elements and answers Len/Cap/Avail/IsFull with n, k, k-n, n==k; without capacity -1/-1/false; Push keeps the earliest offered values; Insert on a full stack is a no-op. Proved from the refinement theorem plus a capacity invariant of the specification.",
+            "technique": "Coq invariant proof over all histories (corollary of the refinement theorem) + differential correspondence check"},
+    "C13": {"props_file": "Props/C13.v", "families": ["nesting"], "design_ref": "DESIGN.md §8 C13",
+            "level_text": "Theorems c13_*: with the option on Push stores exactly the non-Stack values (in order, up to capacity); switching never touches elements; CanNest = option off = a pushed Stack would be stored; IsNesting = some element is a Stack/alias; in every reachable state.",
+            "technique": "Coq proof over the regenerated list model + differential correspondence check (native/alias/pointer-to-alias values)"},
+    "C14": {"props_file": "Props/C14.v", "families": ["policy"], "design_ref": "DESIGN.md §8 C14",
+            "level_text": "Theorem c14_push_policy holds for EVERY policy function: consulted values are a prefix of the batch, each once, in order; approved ones are exactly what is appended; the first rejection stops the batch, is recorded in Err and is not stored; capacity respected.",
+            "technique": "Coq proof parametric in the policy closure + differential correspondence check with logged table-driven policies"},
 }
